@@ -321,6 +321,10 @@ Parse(G, inp, uni, extras, op, fuel, start) ==
 ParseH(G, inp, uni, extras, fuel, start) ==
   Ev([Ctx(G, inp, uni, extras, FALSE, fuel) EXCEPT !.hist = TRUE], [t |-> "id", n |-> start], St0)
 
+\* the attempt history of a run over the OPTIMIZED rules (what the back-ends execute)
+ParseHO(G, inp, uni, extras, fuel, start) ==
+  Ev([Ctx(G, inp, uni, extras, TRUE, fuel) EXCEPT !.hist = TRUE], [t |-> "id", n |-> start], St0)
+
 \* the same with the entry log recorded in the result's h (op = TRUE: over the optimized rules the VM runs)
 ParseE(G, inp, uni, extras, op, fuel, start) ==
   Ev([Ctx(G, inp, uni, extras, op, fuel) EXCEPT !.ent = TRUE], [t |-> "id", n |-> start], St0)
